@@ -197,12 +197,12 @@ def run_units(units, repo, tier="quick", seed=0, tag="x", timeout=None, filters=
         env = dict(os.environ, CARGO_NET_OFFLINE="true", CARGO_TARGET_DIR=CACHE)
         os.makedirs(CACHE, exist_ok=True)
         jobs = min(8, max(1, len(harnesses)))
-        hto = int(os.environ.get("VERIF_HARNESS_TIMEOUT", "420" if tier == "quick" else "1800"))
+        hto = int(os.environ.get("VERIF_HARNESS_TIMEOUT", "900" if tier == "quick" else "2400"))
         cmd = ["cargo", "kani", "-Z", "function-contracts", "-Z", "stubbing", "-Z", "unstable-options",
                "--harness-timeout", "%ds" % hto, "--output-format", "terse", "-j", str(jobs)]
         for h in harnesses:
             cmd += ["--harness", h["name"]]
-        to = timeout or (1500 if tier == "quick" else 5400)
+        to = timeout or (3000 if tier == "quick" else 9000)
         logp = os.path.join(stage_dir, "kani.log")
         timed_out = False
         with open(logp, "w") as lf:
